@@ -50,7 +50,7 @@ type c08Run struct {
 	Extras    bool     `json:"extras"` // add an active and an unreadable count file (must stay untouched)
 	BuildVar  int      `json:"buildVar"`  // which of the five build fields differs between odd and even files (0 GOARCH, 1 GOOS, 2 GoVersion, 3 Version, 4 Program, 5 none: one build, values add up)
 	ModeLocal bool     `json:"modeLocal"` // the mode file says local: reports are made, nothing is offered for upload
-	EndFmt    int      `json:"endFmt"`    // 0: TimeEnd written as ...Z; 1: even files write the same instant as ...+00:00; 2: all files do
+	EndFmt    int      `json:"endFmt"`    // 0: TimeEnd written as ...Z; 1: even files write the same instant as ...+00:00; 2: all files do; 3: all files end at midnight +09:00 and the run starts 5 h later (mode local only)
 	Aged      bool     `json:"aged"`      // the reports were made by an earlier run; every uploader of the race starts 14 days later (weeks older than 21 days)
 }
 
@@ -277,6 +277,11 @@ func c08One(t *testing.T, run *c08Run) {
 		if run.EndFmt == 2 || (run.EndFmt == 1 && f%2 == 0) {
 			endS = endT.Format("2006-01-02T15:04:05") + "+00:00" // the same instant, written with a numeric offset
 		}
+		if run.EndFmt == 3 {
+			// midnight of the same calendar day in a zone east of UTC (nine hours EARLIER as an instant);
+			// the week is still named by the date the file records
+			endS = endT.Format("2006-01-02T15:04:05") + "+09:00"
+		}
 		meta := rt.V1Meta(endT.AddDate(0, 0, -7).Format(time.RFC3339), endS, b[0], b[1], b[2], b[3], b[4])
 		data, err := rt.WriteV1(meta, []rt.V1Entry{{Name: "c", Value: 1 << uint(f)}, {Name: c08Stack, Value: 1 << uint(f)}})
 		if err != nil {
@@ -408,6 +413,17 @@ func c08One(t *testing.T, run *c08Run) {
 	}
 	defer func() { rt.FaultHook = nil }()
 
+	if run.EndFmt == 3 {
+		// the run starts five hours after the last week's files ended, i.e. on the UTC day BEFORE the date they record
+		last := 0
+		for _, wk := range run.Weeks {
+			if wk > last {
+				last = wk
+			}
+		}
+		endT, _ := time.Parse("2006-01-02", c08WeekDate[last])
+		start = endT.Add(-9*time.Hour + 5*time.Hour)
+	}
 	if run.Aged {
 		// an earlier run (at the normal start time) made the reports and could not deliver them; the race
 		// happens two weeks later, when the older weeks are more than 21 days in the past
@@ -420,7 +436,11 @@ func c08One(t *testing.T, run *c08Run) {
 	for ui, name := range run.Uploaders {
 		name := name
 		// the uploaders start on different UTC days (13 h apart); the same count files are finished for all of them
-		start := start.Add(time.Duration(ui) * 13 * time.Hour)
+		gap := 13 * time.Hour
+		if run.EndFmt == 3 {
+			gap = time.Hour // all of them on the UTC day before the recorded date
+		}
+		start := start.Add(time.Duration(ui) * gap)
 		tk := s.Go(name, func() {
 			for k := 0; k < run.MaxRuns; k++ {
 				rt.Yield("run", "")
